@@ -13,7 +13,8 @@ From J5V.model Require ProtoPrintFile.
 From J5V.proofs Require CmpbPrintBridgeProofs CmpbPrintBridgeExample ProtoPrintFileExample.
 From J5V.model Require CmpbBytes ProtoPrintFileWf ProtoParseFile.
 From J5V.proofs Require ProtoPrintFileFullProofs.
-From J5V.proofs Require CmpbBytesProofs CmpbBytesExampleProofs CmpbBytesDepsProofs.
+From J5V.proofs Require CmpbBytesProofs CmpbBytesExampleProofs CmpbBytesDepsProofs CmpbBytesGenProofs.
+From J5V.model Require CmpbBytesGen.
 Import ListNotations.
 Local Open Scope N_scope.
 
@@ -88,6 +89,43 @@ Proof.
   exact (fun ann l => conj (CmpbBytesProofs.any_range_variants_print_the_same ann l) (CmpbBytesProofs.reorder_is_variant ann l)).
 Qed.
 Print Assumptions C14_output_any_range_order.
+
+(* the files come back in the sorted order of their names (sort.Strings in CompilePackage), in every run *)
+Theorem C14_output_file_order : forall bd exts ann pkgs r n o,
+  valid (CmpbBytes.flat_bundle pkgs (CmpbBytes.src_files bd)) -> CmpbBytes.run_ok pkgs bd r ->
+  CmpbBytes.compile_and_print bd exts ann r n = Some o -> strict_sorted (map (fun x => fst (fst x)) o).
+Proof. exact CmpbBytesGenProofs.output_file_order. Qed.
+Print Assumptions C14_output_file_order.
+
+(* `j5 j5s genproto` (cmd/j5/internal/cli/j5s.go): ONE PackageSet; for every package in ListPackages() order: CompilePackage, then
+   PrintFile + PutFile for every returned file named *.j5s.proto; the first error ends the loop.  CmpbBytesGen.genproto runs
+   compile_and_print for the packages of the run's own listing in order, each after the ones before it (with_earlier).  There
+   is a function [table] from package to the (file name, tokens) pairs written for it such that the loop of EVERY run returns
+   [table] mapped over that run's listing: the set of files written and their text do not depend on the listing order, the
+   other orders, the fuels, the earlier calls or the Range order *)
+Theorem C14_genproto_deterministic : forall bd exts ann pkgs rank frank,
+  let b0 := CmpbBytes.flat_bundle pkgs (CmpbBytes.src_files bd) in
+  valid b0 -> well_founded_deps b0 rank ->
+  owner_ok (cmpa_convert bd) CmpbBytes.split_owner (CmpbBytes.is_local_of pkgs) b0 ->
+  imports_wf (cmpa_convert bd) CmpbBytes.split_owner (CmpbBytes.is_local_of pkgs) (CmpbBytes.c_ext_file exts) CmpbBytes.c_deps_of b0 frank ->
+  CmpbBytesProofs.ann_ok ann ->
+  exists table : bytes -> list (bytes * list ProtoPrint.token), forall r, CmpbBytes.run_ok pkgs bd r ->
+    (forall n, In n pkgs -> (rank n < CmpbBytes.r_fuel r)%nat) ->
+    (forall n f, In n pkgs -> In f (map fst (p_files (spec_pkg (cmpa_convert bd) b0 n))) -> (frank f < CmpbBytes.r_lfuel r)%nat) ->
+    CmpbBytesGen.genproto bd exts ann r = Some (map (fun n => (n, table n)) (CmpbBytes.r_pkgs r)).
+Proof. exact CmpbBytesGenProofs.genproto_deterministic. Qed.
+Print Assumptions C14_genproto_deterministic.
+(* on the example: listing [foo.v1; baz.v1] and listing [baz.v1; foo.v1] (everything else reversed as well) write the same
+   four files with the same tokens *)
+Example C14_example_genproto : exists wfoo wbaz,
+  CmpbBytesGen.genproto CmpbBytesExampleProofs.exb_bd CmpbBytesExampleProofs.exb_exts CmpbBytesExampleProofs.exb_ann CmpbBytesExampleProofs.exb_r1
+    = Some [(b "foo.v1", wfoo); (b "baz.v1", wbaz)]
+  /\ CmpbBytesGen.genproto CmpbBytesExampleProofs.exb_bd CmpbBytesExampleProofs.exb_exts CmpbBytesExampleProofs.exb_ann CmpbBytesExampleProofs.exb_r2
+    = Some [(b "baz.v1", wbaz); (b "foo.v1", wfoo)]
+  /\ map fst wfoo = [b "foo/v1/a.j5s.proto"; b "foo/v1/b.j5s.proto"; b "foo/v1/service/b.p.j5s.proto"]
+  /\ map fst wbaz = [b "baz/v1/types.j5s.proto"].
+Proof. exact CmpbBytesGenProofs.exb_genproto. Qed.
+Print Assumptions C14_example_genproto.
 
 (* the package listing enters only as a set: hasAPrefix over localPrefixes (C14-C class: a package directory nested in
    another one, enclosing package listed first), and the bundle CompilePackage sees (localPackageNames + the path.Dir
